@@ -43,7 +43,7 @@ def parseDim (j : Json) : Except String (Option Dim) :=
 
 def parseKind (s : String) : Except String Kind :=
   match s with
-  | "normal" => .ok .normal | "fcm" => .ok .fcm | "otherRV" => .ok .otherRV | "unnamedOp" => .ok .unnamedOp
+  | "normal" => .ok .normal | "normalDep" => .ok .normalDep | "fcm" => .ok .fcm | "otherRV" => .ok .otherRV | "unnamedOp" => .ok .unnamedOp
   | "noOwner" => .ok .noOwner | "notTensor" => .ok .notTensor
   | _ => .error s!"bad kind {s}"
 
